@@ -9,12 +9,18 @@ ops (CERT = 12-token descriptor, Driver/CertArgs.lean):
          SignWith with a signer lambda that returns <sig>; rt = same | fields | fp | err:<kind> (decode of the
          encoding compared with the issued certificate: fields, then fingerprint)
   norm <sig hex>  -> <IsNormalized 0|1|err> <Normalize hex|err> <Swap hex|err>
+  tamper <ver> <form std|hs> <orig hex> <altered hex> <ca ver> <ca hex> <now ns> <sig 0|1>
+      -> op-inconsistent | undecodable <err:kind> | <ok|err:kind> <same|changed> <sigsame|twin|othersig>
+         the original and the CA must decode; the altered encoding is decoded (hs: Recombine with the original's key
+         and curve) and verified against a pool holding the CA; `sig` = CheckSignature of the altered certificate
+         under the CA key (observed); identity = everything but the signature.
 -/
 import Nebula.Driver.CertArgs
 import Nebula.Driver.Certsign
 import Nebula.Model.CertV1
 import Nebula.Model.CertV2
 import Nebula.Model.P256Sig
+import Nebula.Driver.Certverify
 
 namespace Nebula.Driver.Certcodec
 open Nebula.Driver Nebula.Net Nebula.Cert Nebula.Driver.Certsign
@@ -159,6 +165,37 @@ def step (s : Unit) (args : List String) (impl : String) : Unit × Out :=
       let n := match P256.isNormalized b with | some true => "1" | some false => "0" | none => "err"
       let m := s!"{n} {o (P256.normalize b)} {o (P256.swap b)}"
       (s, { model := m, verdict := expect "p256-normalize" impl m, tag := "norm:" ++ n })
+  | ["tamper", ver, form, orig, alt, caver, cahex, now, sig] =>
+    match natArg ver, hexToBytes orig, hexToBytes alt, natArg caver, hexToBytes cahex, intArg now with
+    | some ver, some orig, some alt, some caver, some cab, some now =>
+      match decode ver false 0 none (some orig), decode caver false 0 none (some cab) with
+      | .ok (c0, _), .ok (ca, _) =>
+        let r := if form == "hs" then decode ver true c0.curve (some c0.publicKey) (some alt)
+                 else decode ver false 0 none (some alt)
+        let m := match r with
+          | .error e => "undecodable " ++ e
+          | .ok (c1, _) =>
+            let same := { c1 with signature := [] } == { c0 with signature := [] }
+            let sigrel := if c1.signature == c0.signature then "sigsame"
+              else if P256.swap c0.signature == some c1.signature then "twin" else "othersig"
+            let K : Crypto :=
+              { fingerprint := fun x => if x.isCA then some c0.issuer else some "altered",
+                altFingerprint := fun _ => some "", checkSig := fun x _ => if x.isCA then true else sig == "1" }
+            let p := (({} : Pool).addCA K now ca).1
+            let v := match p.verifyCertificate K now c1 with
+              | .ok _ => "ok"
+              | .error e => Certverify.verrStr e
+            s!"{v} {if same then "same" else "changed"} {sigrel}"
+        -- property (C02): an altered encoding that still decodes is rejected unless the identity is unchanged,
+        -- and the only other accepted signature for unchanged content is the P-256 twin
+        let verdict :=
+          if impl.startsWith "ok changed" then "bad tamper-accepted-identity-changed"
+          else if impl.startsWith "ok same othersig" then "bad second-signature-accepted"
+          else "ok"
+        let tag := if m.startsWith "undecodable" then "tamper:undecodable" else "tamper:" ++ m
+        (s, { model := m, verdict := verdict, tag := tag })
+      | _, _ => (s, { model := "op-inconsistent", verdict := "ok", tag := "triv:op-inconsistent" })
+    | _, _, _, _, _, _ => (s, badOp)
   | _ => (s, badOp)
 
 def main : IO Unit := runEngine () step
